@@ -116,6 +116,7 @@ PROPS["C01"] = dict(
     level="proof",
     verus=["c01_tokenizer", "c01_get_tokens", "c01_index", "c01_lookup", "c04_partition", "c04_precedence", "c01_tok_sound", "c05_optimizer"],
     labels=["C01.", "C04.new.", "C04.check.", "C05.key.", "C05.fusion."] + MASK,
+    witness=["c01_linear_scan.rs"],
     kani=[],
     trusted=["per-rule matcher uninterpreted (C02/C03)", "probe sequence of a request (iterator chain) materialised (R5)",
              "seahash (uninterpreted), char::is_alphanumeric (uninterpreted token alphabet)",
